@@ -264,7 +264,12 @@ def build_c(unit, units, outdir, defines=()):
         if units[n].get('self') and isinstance(units[n].get('members'), dict):
             reg = shared['selfs'].setdefault(units[n]['self'], OrderedDict())
             for k, v in units[n]['members'].items():
-                reg.setdefault(k, v)
+                if '.' in k:
+                    # Struct.member: a member of a partial struct
+                    sn, mn = k.split('.', 1)
+                    shared['selfs'].setdefault(sn, OrderedDict()).setdefault(mn, v)
+                else:
+                    reg.setdefault(k, v)
     inl = set()
     for n in allu:
         inl.update(units[n].get('inline', []))
